@@ -43,6 +43,7 @@ var wanted = map[string]bool{
 	"syncMap.Read": true, "syncMap.Write": true, "syncMap.Delete": true, "syncMap.deleteExpired": true, "syncMap.ExpireAll": true,
 	"Failover.ctxSync": true, "FailoverOf.ctxSync": true, "Failover.recentlyFailed": true, "FailoverOf.recentlyFailed": true,
 	"Failover.freshEnough": true, "FailoverOf.freshEnough": true, "Failover.valueFromError": true,
+	"Failover.Get": true, "FailoverOf.Get": true, "Failover.waitForValue": true, "FailoverOf.waitForValue": true,
 	"Failover.doBuild": true, "FailoverOf.doBuild": true, "Failover.refreshStale": true, "FailoverOf.refreshStale": true,
 	"Trait.NotifyWritten": true, "Trait.NotifyDeleted": true, "Trait.NotifyExpiredAll": true, "Trait.NotifyDeletedAll": true,
 	"TraitOf.NotifyWritten": true,
@@ -52,7 +53,28 @@ type tr struct {
 	fset   *token.FileSet
 	info   *types.Info
 	pkg    *types.Package
-	locals map[types.Object]bool
+	locals map[types.Object]string // declared inside the function -> its name in the IR (a shadowing declaration gets a fresh name)
+	used   map[string]int
+}
+
+// declare registers a local; the first object of a name keeps it, later ones (shadowing: `if err := ...`) get name'N.
+func (t *tr) declare(obj types.Object) string {
+	if n, ok := t.locals[obj]; ok {
+		return n
+	}
+
+	name := obj.Name()
+	if name != "_" {
+		t.used[name]++
+
+		if k := t.used[name]; k > 1 {
+			name = fmt.Sprintf("%s'%d", name, k)
+		}
+	}
+
+	t.locals[obj] = name
+
+	return name
 }
 
 func (t *tr) src(n ast.Node) string {
@@ -147,8 +169,10 @@ func (t *tr) expr(e ast.Expr) string {
 			return "(GBool false)"
 		}
 
-		if obj := t.info.ObjectOf(x); obj != nil && t.locals[obj] {
-			return "(GId " + q(x.Name) + ")"
+		if obj := t.info.ObjectOf(x); obj != nil {
+			if n, ok := t.locals[obj]; ok {
+				return "(GId " + q(n) + ")"
+			}
 		}
 
 		return "(GLeaf " + q(x.Name) + ")"
@@ -223,7 +247,7 @@ func (t *tr) define(lhs []ast.Expr) {
 	for _, l := range lhs {
 		if id, ok := l.(*ast.Ident); ok {
 			if obj := t.info.Defs[id]; obj != nil {
-				t.locals[obj] = true
+				t.declare(obj)
 			}
 		}
 	}
@@ -234,12 +258,14 @@ func (t *tr) stmt(s ast.Stmt) string {
 	case *ast.ExprStmt:
 		return "(GExprS " + t.expr(x.X) + ")"
 	case *ast.AssignStmt:
-		if x.Tok == token.DEFINE {
-			t.define(x.Lhs)
-		}
-
 		if x.Tok == token.ASSIGN || x.Tok == token.DEFINE {
-			return fmt.Sprintf("(GAssign %s %s)", t.exprs(x.Lhs), t.exprs(x.Rhs))
+			rhs := t.exprs(x.Rhs) // before the left-hand side is declared: `err := f(err)` reads the outer err
+
+			if x.Tok == token.DEFINE {
+				t.define(x.Lhs)
+			}
+
+			return fmt.Sprintf("(GAssign %s %s)", t.exprs(x.Lhs), rhs)
 		}
 
 		// x op= y
@@ -263,12 +289,16 @@ func (t *tr) stmt(s ast.Stmt) string {
 
 				var lhs []string
 
+				var names []string
+
 				for _, n := range vs.Names {
+					nm := n.Name
 					if obj := t.info.Defs[n]; obj != nil {
-						t.locals[obj] = true
+						nm = t.declare(obj)
 					}
 
-					lhs = append(lhs, "GId "+q(n.Name))
+					names = append(names, q(nm))
+					lhs = append(lhs, "GId "+q(nm))
 				}
 
 				if len(vs.Values) > 0 {
@@ -279,7 +309,7 @@ func (t *tr) stmt(s ast.Stmt) string {
 						ty = t.src(vs.Type)
 					}
 
-					out = append(out, fmt.Sprintf("(GVar %s %s)", list(quoteAll(vs.Names)), q(ty)))
+					out = append(out, fmt.Sprintf("(GVar %s %s)", list(names), q(ty)))
 				}
 			}
 
@@ -329,7 +359,7 @@ func (t *tr) stmt(s ast.Stmt) string {
 		name := func(e ast.Expr) string {
 			if id, ok := e.(*ast.Ident); ok {
 				if obj := t.info.Defs[id]; obj != nil {
-					t.locals[obj] = true
+					return t.declare(obj)
 				}
 
 				return id.Name
@@ -466,7 +496,7 @@ func main() {
 			}
 
 			seen[name] = true
-			t := &tr{fset: fset, info: info, pkg: pkg, locals: map[types.Object]bool{}}
+			t := &tr{fset: fset, info: info, pkg: pkg, locals: map[types.Object]string{}, used: map[string]int{}}
 
 			var params []string
 
@@ -477,11 +507,12 @@ func main() {
 
 				for _, fld := range fl.List {
 					for _, n := range fld.Names {
+						nm := n.Name
 						if obj := info.Defs[n]; obj != nil {
-							t.locals[obj] = true
+							nm = t.declare(obj)
 						}
 
-						params = append(params, q(n.Name))
+						params = append(params, q(nm))
 					}
 				}
 			}
